@@ -79,7 +79,7 @@ PROPERTIES = {
         'assumptions': ['__eq__ (documented to compare renderings) and encode are outside the claim'],
     },
     'C01': {
-        'groups': ['R4', 'R3', 'T1', 'K1', 'K2', 'K3', 'S2D', 'N1'],
+        'groups': ['R4', 'R3', 'T1', 'K1', 'K2', 'K3', 'S2D', 'N1', 'Z1', 'Z2'],
         'level': 'other',
         'explanation': 'Contract on AnsiString.to_str for all 8 combinations of optimize/reset_start/reset_end over bounded-symbolic '
                        'tables whose setting texts are well-formed SGR parameter groups with symbolic numbers (any code 0..110: known, '
@@ -95,7 +95,7 @@ PROPERTIES = {
         'assumptions': ['base text without ESC', 'format specs are C12', 'AnsiStr renderings are delegations (C13)'],
     },
     'C15': {
-        'groups': ['K1', 'K2', 'K3', 'S1', 'R4', 'T1'],
+        'groups': ['K1', 'K1b', 'K2', 'K3', 'S1', 'R4', 'T1'],
         'level': 'other',
         'explanation': 'AnsiSetting.valid == "no character in 0x40-0x7E" is proved for texts of any length (loop invariant, U-mode) '
                        'including the cache; AnsiSetting.parsable == "one complete known SGR parameter group other than reset" is '
